@@ -64,6 +64,8 @@ func symbols() *sl.Symbols {
 		sl.Op{Name: "reject: duplicate id in batch", Kind: "ins", Ids: []int{4, 4}, Docs: []sl.Doc{doc(3), doc(3)}},
 		sl.Op{Name: "reject: existing id last of 3", Kind: "ins", Ids: []int{4, 5, 1}, Docs: []sl.Doc{doc(3), doc(4), doc(0)}},
 		sl.Op{Name: "reject: existing id without data last of 3", Kind: "ins", Ids: []int{4, 5, 1}, Docs: []sl.Doc{doc(3), doc(4), sl.NoData}},
+		bigBatch("ins10000", false),
+		bigBatch("reject: existing id last of 10000", true),
 		sl.Op{Name: "reject: merged document oversized", Kind: "upd", Ids: []int{2, 1}, Docs: []sl.Doc{doc(6), {"big": big}}},
 		sl.Op{Name: "reject: wrong field type", Kind: "ins", Ids: []int{4, 5}, Docs: []sl.Doc{doc(3), {"a": "not a number", "txt": "fox"}}},
 		sl.Op{Name: "ins1(pq field)", Kind: "ins", Ids: []int{4}, Docs: []sl.Doc{{"pq": stored[1], "txt": "fox"}}},
@@ -82,6 +84,24 @@ func obsQueries() []models.Query {
 		{Property: "a", Integer: &models.SearchIntegerOptions{Value: -5, Operator: models.OperatorGreaterOrEq}},
 		{Property: "f", Float: &models.SearchFloatOptions{Value: -5, Operator: models.OperatorGreaterOrEq}},
 	}
+}
+
+// bigBatch is an insert of 10000 points (the HTTP layer's maximum per request)
+// that carry no indexed field, so that its size, not the index work, is what is
+// exercised: any chunking or batching threshold below 10000 lies inside it.
+func bigBatch(name string, lastExists bool) sl.Op {
+	op := sl.Op{Name: name, Kind: "ins"}
+	for i := 0; i < 9999; i++ {
+		op.Ids = append(op.Ids, 2000+i)
+		op.Docs = append(op.Docs, sl.Doc{"k": int64(i)})
+	}
+	last := 11999
+	if lastExists {
+		last = 1
+	}
+	op.Ids = append(op.Ids, last)
+	op.Docs = append(op.Docs, sl.Doc{"k": int64(-1)})
+	return op
 }
 
 // Case identifies one (start state, batch, schema) combination.
@@ -354,7 +374,7 @@ func clip(s string) string {
 }
 
 func master(cfg *harness.Config, rep *harness.Report) {
-	rep.Rule = "cases = start state {empty, 3 points warm, 3 points reopened cold} x batch {insert 1, insert 3, update every indexed field of 2 points, remove every indexed field, delete 2, and the validation rejections: duplicate id in batch, existing id last of 3 (with a document, and as a point without any data), merged document over MaxPointSize, wrong field type; plus an index whose construction fails}; per case a counting run, then one run per fault point = every (bucket, kind in {Put, Delete, ForEach, Scan, BucketOpen, TxBegin}, ordinal) the batch issues, failing exactly that operation; the first and last ordinal of every (bucket, kind) and the fault-free batch additionally under two schedule policies (index pipelines held back / point store held back); and one run that takes a crash image of the file at every storage operation, when the transaction function returned, and after commit. Oracle: a failed call leaves observation battery + raw bucket digest identical to before, on the running instance and after reopen; a successful call equals the reference model; crash images before commit equal the state before, after commit the model after; storage use after transaction end is recorded by the proxy. distinct_nontrivial = fault points that fired"
+	rep.Rule = "cases = start state {empty, 3 points warm, 3 points reopened cold} x batch {insert 1, insert 3, update every indexed field of 2 points, remove every indexed field, delete 2, and the validation rejections: duplicate id in batch, existing id last of 3 (with a document, and as a point without any data), merged document over MaxPointSize, wrong field type; an insert of 10000 points (accepted, and rejected at its last point: four fault ordinals per bucket and kind); plus an index whose construction fails}; per case a counting run, then one run per fault point = every (bucket, kind in {Put, Delete, ForEach, Scan, BucketOpen, TxBegin}, ordinal) the batch issues, failing exactly that operation; the first and last ordinal of every (bucket, kind) and the fault-free batch additionally under two schedule policies (index pipelines held back / point store held back); and one run that takes a crash image of the file at every storage operation, when the transaction function returned, and after commit. Oracle: a failed call leaves observation battery + raw bucket digest identical to before, on the running instance and after reopen; a successful call equals the reference model; crash images before commit equal the state before, after commit the model after; storage use after transaction end is recorded by the proxy. distinct_nontrivial = fault points that fired"
 	rep.Assumptions = []string{"Get cannot return an error in the storage API: reads are counted, not failed", "bbolt's own commit (page writes + fsync) is atomic: torn pages inside a commit are not enumerated", "goroutine interleavings inside the batch are those the real scheduler produced (schedule policies: see DESIGN.md)"}
 	p := pool.New(pool.Options{CPUsPerWorker: 2, JobTimeout: 90 * time.Second})
 	run := func(jobs []job) []pool.Result {
@@ -389,6 +409,8 @@ func master(cfg *harness.Config, rep *harness.Report) {
 		}
 	}
 	cases = append(cases, Case{State: "empty", Batch: "ins1(pq field)", Schema: "badpq"}, Case{State: "warm3", Batch: "ins1(pq field)", Schema: "badpq"})
+	// the largest batch the HTTP layer lets through, accepted and rejected at its last point
+	cases = append(cases, Case{State: "warm3", Batch: "ins10000", Schema: "full"}, Case{State: "warm3", Batch: "reject: existing id last of 10000", Schema: "full"})
 	// 1. counting runs
 	var cjobs []job
 	for _, c := range cases {
@@ -413,12 +435,15 @@ func master(cfg *harness.Config, rep *harness.Report) {
 			}
 			n := res.Counts[k]
 			step := 1
+			if big := strings.Contains(cjobs[i].Case.Batch, "10000"); big {
+				step = max(1, (n-1)/3) // a 10000-point batch: four ordinals per (bucket, kind) incl. first and last
+			}
 			for ord := 1; ord <= n; ord += step {
 				f := &faultx.Fault{Tx: 1, Bucket: bucket, Kind: kind, Ordinal: ord, Action: "fail"}
 				fjobs = append(fjobs, job{Kind: "fault", Case: cjobs[i].Case, Fault: f})
 				faultPoints++
 				// the schedule policies on the first and last ordinal of every (bucket, kind)
-				if ord == 1 || ord == n || !cfg.Quick() {
+				if (ord == 1 || ord == n || !cfg.Quick()) && !strings.Contains(cjobs[i].Case.Batch, "10000") {
 					fjobs = append(fjobs, job{Kind: "fault", Case: cjobs[i].Case, Fault: f, Policy: "index-last"}, job{Kind: "fault", Case: cjobs[i].Case, Fault: f, Policy: "points-last"})
 				}
 			}
@@ -427,9 +452,13 @@ func master(cfg *harness.Config, rep *harness.Report) {
 				faultPoints++
 			}
 		}
-		fjobs = append(fjobs, job{Kind: "crash", Case: cjobs[i].Case})
+		if !strings.Contains(cjobs[i].Case.Batch, "10000") { // (an image per storage operation of a 10000-point batch would be 30000 file copies)
+			fjobs = append(fjobs, job{Kind: "crash", Case: cjobs[i].Case})
+		}
 		// the batch without an injected fault under both policies (rejections are faults of their own)
-		fjobs = append(fjobs, job{Kind: "fault", Case: cjobs[i].Case, Policy: "index-last"}, job{Kind: "fault", Case: cjobs[i].Case, Policy: "points-last"})
+		if !strings.Contains(cjobs[i].Case.Batch, "10000") { // (the policies delay every storage operation by ~1 ms: 30 s per run of a 10000-point batch)
+			fjobs = append(fjobs, job{Kind: "fault", Case: cjobs[i].Case, Policy: "index-last"}, job{Kind: "fault", Case: cjobs[i].Case, Policy: "points-last"})
+		}
 	}
 	rep.Set("cases", len(cases))
 	rep.Set("fault_points", faultPoints)
